@@ -335,7 +335,8 @@ def redef_cases(draw):
     seps1 = [draw(st.sampled_from([" ", "  ", "\t", "/**/", ""])) for _ in toks]
     variant = draw(st.sampled_from(["same", "ws-amount", "ws-presence", "token", "param", "kind", "comment-for-space"]))
     toks2, seps2 = list(toks), list(seps1)
-    params1 = params2 = "x, y"
+    # parameter lists of every shape, the empty one included: `M()` and `M` differ in kind although both have no parameter
+    params1 = params2 = draw(st.sampled_from(["x, y", "", "x", "...", "x, ...", "x, y, z", "y, x"]))
     if variant == "ws-amount":
         seps2 = [("   " if s.strip() == "" and s else s) for s in seps1]
     elif variant == "comment-for-space":
@@ -347,7 +348,7 @@ def redef_cases(draw):
         i = draw(st.integers(0, len(toks) - 1))
         toks2[i] = "3" if toks[i] != "3" else "4"
     elif variant == "param":
-        params2 = "x, z"
+        params2 = draw(st.sampled_from([q for q in ["x, z", "x, y", "", "x", "...", "x, ...", "x, y, ...", "y, x", "x, y, z"] if q != params1]))
     hdr1 = "#define M" + ("(%s)" % params1 if kind == "fn" else "")
     k2 = kind
     if variant == "kind":
@@ -359,7 +360,8 @@ def redef_cases(draw):
         for k, (t, s) in enumerate(zip(ts, ss)):
             out += (s if k else "") + t
         return out
-    return "%s%s\n%s%s\nint x;\n" % (hdr1, body(toks, seps1), hdr2, body(toks2, seps2))
+    mid = draw(st.sampled_from(["", "", "", "#define N%s 1\n" % ("(%s)" % params1 if kind == "fn" else ""), "#undef M\n", "#undef N\n"]))
+    return "%s%s\n%s%s%s\nint x;\n" % (hdr1, body(toks, seps1), mid, hdr2, body(toks2, seps2))
 
 
 def redef_check(case, ctx):
